@@ -896,7 +896,23 @@ class GetLbaStatus(Format):
     D = Struct([("lba", 0, 7, 64), ("num_blocks", 8, 7, 32), ("p_status", 12, 3, 4)], 16)
 
     def gen(self, rng, mode="rand"):
-        return {"lbas": [gen_struct(self.D, rng) for _ in range(counts(rng, mode))]}
+        lbas = [gen_struct(self.D, rng) for _ in range(counts(rng, mode))]
+        r = rng.random()
+        if r < 0.45 and len(lbas) > 1:
+            # an extent map as devices report it: every descriptor begins where the one before ends; neighbours with the same or
+            # with alternating provisioning status, some of them equal in length
+            lba = rng.choice([0, 0, 8, 1 << 20, (1 << 32) - 64, rng.getrandbits(40)])
+            same = rng.random() < 0.5
+            st = rng.randrange(3)
+            for i, d in enumerate(lbas):
+                d["lba"] = lba
+                d["num_blocks"] = rng.choice([1, 8, 8, 2048, 65536, (1 << 31), rng.randint(1, 1 << 20)])
+                d["p_status"] = st if same or rng.random() < 0.3 else (st + i) % 3
+                lba = (lba + d["num_blocks"]) & ((1 << 64) - 1)
+        elif r < 0.55 and lbas:
+            # the same descriptor listed twice
+            lbas.insert(rng.randrange(len(lbas) + 1), dict(rng.choice(lbas)))
+        return {"lbas": lbas}
 
     def encode(self, v):
         body = b"".join(bytes(self.D.encode(d)) for d in v["lbas"])
@@ -913,7 +929,14 @@ class ReportLunsF(Format):
     canonical_roundtrip = True
 
     def gen(self, rng, mode="rand"):
-        return {"_luns": [gen.rand_value(rng, 64) for _ in range(counts(rng, mode))]}
+        luns = [gen.rand_value(rng, 64) for _ in range(counts(rng, mode))]
+        r = rng.random()
+        if r < 0.25 and luns:
+            # as targets list them: LUN 0, 1, 2 ... in the first addressing level; or with an entry listed twice
+            luns = [i << 48 for i in range(len(luns))]
+        elif r < 0.35 and luns:
+            luns.insert(rng.randrange(len(luns) + 1), rng.choice(luns))
+        return {"_luns": luns}
 
     def encode(self, v):
         body = b"".join(bytes(be(l, 8)) for l in v["_luns"])
